@@ -225,6 +225,7 @@ pub open spec fn mc_stored_side(o: &StateMachine, f: &StateMachine, c: MergeConf
 
 //@ fn src/handlers/merge_conflict.rs parse_merge_marker
 //@| ensures r is Some ==> is_prefix(marker@, line@),  // @C01,C04:a.conflict.marker.is.recognised.by.its.prefix
+//@|         r matches Some(x) ==> x@.len() > 0,  // @C10:a.commit.name.taken.from.a.conflict.marker.is.never.empty
 
 impl<'a> StateMachine<'a> {
     //@ fn src/handlers/merge_conflict.rs StateMachine::store_line
